@@ -12,7 +12,7 @@ from vf import wire
 from vf.core import Ctx, Recorder
 
 SYMS = ['"', "'", "\\", ";", "\r", "\n", "\r\n", "=", "é", "😀", " ", "--", "a"]
-BOUNDARIES = [None, "B0undary", "xYz--", "----WebKitFormBoundary7MA4YWxkTrZu0gW", "a"]
+BOUNDARIES = [None, "B0undary", "xYz--", "----WebKitFormBoundary7MA4YWxkTrZu0gW", "a", "gc0pJq0M:08jU534c0p", "simple boundary", "a=b", "(x)", "a/b,c?d"]
 
 
 def esc(s: str) -> bytes:
@@ -137,6 +137,12 @@ def check(rec: Recorder, fields: list[dict[str, typing.Any]], container: str, bo
                 return
             ctype = cts[0].decode("latin-1")
     except Exception as e:  # noqa: BLE001
+        unrepresentable = any(("\r" in str(v) or "\n" in str(v)) for f in spec for v in [f.get("ctype")] + [x for kv in f.get("extra", []) for x in kv])
+        if isinstance(e, ValueError) and unrepresentable:
+            # a header value with CR / LF (a MIME type taken from an upload, say) cannot be written as one header line:
+            # refusing it is the only way to keep "no field content can add a header or open a part"
+            rec.count("rejected_unrepresentable_header_value")
+            return
         rec.fail(case, "encoder-exception", {"exc": type(e).__name__}, f"encoding raised {e!r}")
         return
     rec.mon("parse_back")
@@ -145,6 +151,23 @@ def check(rec: Recorder, fields: list[dict[str, typing.Any]], container: str, bo
         rec.fail(case, "content-type-shape", {"ctype": str(ctype)[:80]}, f"content type {ctype!r}")
         return
     b = ctype[len(prefix) :]
+    # RFC 2045 5.1: a parameter value is a token or a quoted-string; a boundary with tspecials or a space (RFC 2046's own
+    # examples 'gc0pJq0M:08jU534c0p' and 'simple boundary') is only named by the header when it is quoted
+    TOKEN = set("!#$%&'*+-.^_`|~0123456789abcdefghijklmnopqrstuvwxyzABCDEFGHIJKLMNOPQRSTUVWXYZ")
+    if len(b) >= 2 and b[0] == '"' and b[-1] == '"':
+        inner, out, i = b[1:-1], "", 0
+        while i < len(inner):
+            if inner[i] == "\\" and i + 1 < len(inner):
+                i += 1
+            elif inner[i] == '"':
+                rec.fail(case, "content-type-shape", {"ctype": ctype[:80], "why": "bare quote inside quoted boundary"}, f"content type {ctype!r}")
+                return
+            out += inner[i]
+            i += 1
+        b = out
+    elif not b or any(c not in TOKEN for c in b):
+        rec.fail(case, "content-type-shape", {"ctype": ctype[:80], "why": "boundary parameter is neither a token nor a quoted-string", "asked": boundary}, f"content type {ctype!r} does not name the boundary for a strict parameter parser")
+        # (the body is still judged against the boundary as a lenient reader of the header would take it)
     if boundary is not None and b != boundary:
         rec.fail(case, "boundary-not-used", {"named": b, "asked": boundary}, "content type names a different boundary than requested")
         return
@@ -197,7 +220,7 @@ def random_value(rng: typing.Any) -> typing.Any:
 
 REAL_FILENAMES = ["site.tar.gz", "dump.gz", "access.txt.gz", "report.csv.bz2", "x.bz2", "data:text/html,hi", "README", "Makefile", "a.tgz", "photo.JPG", "photo.jpg", "archive.tar.xz", "notes.txt.xz",
                   "page.html", "page.HTML.gz", "f.svgz", "a.b.c", ".hidden", "noext.", "weird.unknownext", "http://h.test/p.png?x=1.txt", "dir/inner.txt", "t.tar", "script.py.Z"]
-CTYPES = ["text/plain", "application/octet-stream", "image/png; charset=x"]
+CTYPES = ["text/plain", "application/octet-stream", "image/png; charset=x", "text/plain", "application/octet-stream", "text/plain\r\nX-Evil: 1", "text/pl\nain", "a/b\r\n\r\nsmuggled-data\r\n--B0undary\r\nContent-Disposition: form-data; name=\"is_admin\"\r\n\r\n1", "x/y\rz"]
 
 
 def random_field(rng: typing.Any, names: list[str]) -> dict[str, typing.Any]:
